@@ -26,6 +26,9 @@ SHAPES = {
     "transitive_redundant": (3, [(0, 1), (1, 2), (0, 2)]),
     "wide4": (4, []),
     "nested_pair": ("nested", None),
+    # names that an over-eager normalisation of -t / path values would change or confuse: a leading dot
+    # next to the same name without it, a comma, a trailing dot
+    "odd_names": ("odd", None),
 }
 
 
@@ -57,6 +60,9 @@ def shape_targets(shape):
             ts[i].setdefault("uses", []).append(NAMES[j])
         return ts
     n, edges = SHAPES[shape]
+    if n == "odd":
+        # (no space: -t takes a space-delimited list, so a path with a space cannot be named there)
+        return [{"path": ".ci"}, {"path": "ci", "uses": [".ci"]}, {"path": "my,target"}, {"path": "x.", "uses": ["my,target"]}]
     if n == "nested":
         # p, p/c nested in it, q uses a file inside p/c
         return [{"path": "p"}, {"path": "p/c"}, {"path": "q", "uses": ["p/c/f.txt"]}]
@@ -162,7 +168,7 @@ def c04_scenarios(tier):
         sn.close_streams = True
         out.append(("c04", sn.describe(), {"max_dev": 0 if tier == "quick" else 1, "sequences": None}))
     # the surroundings of a run: records of an earlier (failed / successful) run on disk, a listener attached
-    ctxs = [["prior-failed"], ["listener"]] if tier == "quick" else [["prior-failed"], ["prior-ok"], ["listener"], ["prior-failed", "listener"]]
+    ctxs = [["prior-failed"], ["listener"], ["foreign"]] if tier == "quick" else [["prior-failed"], ["prior-ok"], ["listener"], ["prior-failed", "listener"], ["foreign"], ["foreign", "prior-failed", "listener"]]
     for sh in shapes:
         ts = shape_targets(sh)
         for ctx in ctxs:
@@ -198,6 +204,9 @@ def c16_scenarios(tier):
     for n in ([2, 5, 13] if tier == "quick" else [2, 3, 5, 13, 34]):
         for lis in (["--stdout", "--stderr"], ["--stdout", "-t", "g00", "g01"], ["--stderr", "-t", "g00"]):
             out.append(("c16", {"n": n, "pos": "middle", "ncmd": 1, "listener": lis}, {}))
+    # invoked as -f <abs config> from an unrelated directory
+    for n in ([2, 5, 24] if tier == "quick" else [2, 3, 5, 13, 24, 48]):
+        out.append(("c16", {"n": n, "pos": "middle", "ncmd": 1, "foreign": True}, {}))
     # the group reached through -t ... --deps instead of change detection
     for n in ([2, 5, 24] if tier == "quick" else [2, 3, 5, 13, 24, 48]):
         for pos, named in (("middle", "last"), ("only", "all"), ("last", "all")):
@@ -293,7 +302,10 @@ def c16_task(desc):
                 # a `log tail` listener is attached for the whole run
                 import p_listen
                 p_listen.Listener(c, r, s, desc["listener"])
-            p = c.spawn("run", [common.MONORAIL, "run"] + sn.args, r.dir, s.env(c.env()))
+            if desc.get("foreign"):
+                r.foreign_cwd()
+            argv_, cwd_ = r.cmdline("run", *sn.args)
+            p = c.spawn("run", argv_, cwd_, s.env(c.env()))
             released = 0
             rendezvous = 0
             blocked = False
@@ -373,7 +385,7 @@ def c06_scenarios(tier):
                 for (c, t) in ([positions[0]] if tier == "quick" else [positions[0], positions[-1]]):
                     out.append(("c06", {"shape": sh, "faults": [[c, t, "exit", code]]}, {"max_dev": 0}))
         # the same with an earlier run's records on disk / a listener attached
-        for ctx in ([["prior-failed"], ["listener"]] if tier == "quick" else [["prior-failed"], ["prior-ok"], ["listener"], ["prior-failed", "listener"]]):
+        for ctx in ([["prior-failed"], ["listener"], ["foreign"]] if tier == "quick" else [["prior-failed"], ["prior-ok"], ["listener"], ["prior-failed", "listener"], ["foreign"], ["foreign", "listener"]]):
             out.append(("c06", {"shape": sh, "faults": []}, {"context": ctx}))
             for (c, t) in (positions[0], positions[-1]):
                 out.append(("c06", {"shape": sh, "faults": [[c, t, "exit", 1]]}, {"context": ctx}))
@@ -922,6 +934,9 @@ def apply_context(s, r, sn, ctx):
     """Things that exist around the explored run without being part of it: the records of an earlier
     run of the same arguments in the same repository (one that failed at the first target's first
     command, or one that succeeded), and/or a `log tail` listener attached for every execution."""
+    if "foreign" in ctx:
+        # everything from here on is invoked as `-f <abs config>` from an unrelated directory
+        r.foreign_cwd()
     if "prior-failed" in ctx:
         r.set_script(sn.targets[0]["path"], sn.commands[0], ["err " + b"earlier failure\n".hex(), "exit 1"])
         pr = r.mr("run", *sn.args, env=r.trace_env())
@@ -933,7 +948,8 @@ def apply_context(s, r, sn, ctx):
             raise common.EngineError("context: the earlier run printed no document: exit %s %s" % (pr.code, pr.err[:200]))
     if "listener" in ctx:
         import subprocess
-        lis = subprocess.Popen([common.MONORAIL, "log", "tail", "--stdout", "--stderr"], cwd=r.dir, env=s.env(),
+        argv_, cwd_ = r.cmdline("log", "tail", "--stdout", "--stderr")
+        lis = subprocess.Popen(argv_, cwd=cwd_, env=s.env(),
                                stdout=subprocess.DEVNULL, stderr=subprocess.DEVNULL, start_new_session=True)
         s.popens.append(lis)
         t_end = time.time() + 10
